@@ -72,7 +72,8 @@ for _name, _op in [('lt', '<'), ('le', '<='), ('gt', '>'), ('ge', '>='), ('eq', 
 Sym.__neg__ = lambda a: Sym(('neg', T(a)))
 Sym.__pos__ = lambda a: Sym(('pos', T(a)))
 Sym.__abs__ = lambda a: Sym(('abs', T(a)))
-for _fn in ('exp', 'log', 'sqrt', 'log10', 'sin', 'cos', 'tanh'):
+Sym.arctan2 = lambda a, b: Sym(('arctan2', T(a), T(b)))
+for _fn in ('exp', 'log', 'sqrt', 'log10', 'sin', 'cos', 'tanh', 'log1p', 'expm1', 'log2', 'arctan'):
     setattr(Sym, _fn, (lambda fn: lambda a: Sym((fn, T(a))))(_fn))
 
 
